@@ -311,6 +311,35 @@ def run_unit(u):
                                 "dynamic filter (LR): " + str(probs[0][0]),
                                 {"problems": [list(map(str, x)) for x in probs[:5]]},
                                 case("lr", s, "accept"))
+    # ---- LR, reject every reduction of one marked production ---------------
+    for rej in prod_ids:
+        gg = grammar_from_string(text)
+        if not gg.productions[rej].dynamic:
+            continue
+        rec = Recorder(rej)
+        try:
+            p = build("lr", gg, mon, tag=("lr", rej), ws="", prefer_shifts=False,
+                      prefer_shifts_over_empty=False, dynamic_filter=rec)
+        except (Exception, BudgetExceeded):      # noqa: BLE001
+            continue
+        opname = gg.productions[rej].rhs[1].name
+        opchar = [o_ for o_, nme in NAMES.items() if nme == opname][0]
+        for s in exprs:
+            rec.calls = []
+            o = parse(p, s, mon)
+            st["evaluations"] += 1
+            probs = discipline(rec.calls, gg)
+            # whatever happens (a result, SyntaxError, a conflict error, even
+            # the IndexError of an emptied action list): the rejected
+            # reduction must not be in what is returned
+            if o.kind == "ok" and opchar in repr(o.value):
+                probs.append(("rejected reduction was taken by the LR parser",
+                              repr(o.value)[:80]))
+            if probs:
+                judge.deviation("FILTER", cfg + "/lr-reject", gk, s,
+                                "dynamic filter (LR): " + str(probs[0][0]),
+                                {"problems": [list(map(str, x)) for x in probs[:5]],
+                                 "reject": rej}, case("lr", s, f"reject:{rej}"))
     # ---- precedence-encoding filter (all marked) ---------------------------
     if all(u["marks"][:2 * k]) and not nmark:
         for wo in weak_orderings(list(ops)):
